@@ -891,6 +891,13 @@ func c11(c *Ctx) {
 					fmt.Sprintf("C11-bytes-hash grammar: scanBytes = true; id: /[a-z\\x80-\\xff]+/ (class); 'if': /if/; 'été': /été/  input \"if été\"  generated lexer: %s  want token %d for été", outs[2], kw))
 			}
 			c.Extra["variant_observed"] = map[string]bool{"colFix": variant.ColFix, "hashFix": variant.HashFix}
+			// the probe lexers are cases for the model as well (observed variant)
+			for i, pr := range probes {
+				_, sp := spaceSet(pr.G)
+				in := []string{"a\nb\n  c", "a\nb\n  c", "if été"}[i]
+				c.Case(lexProto(variant, pr.G.Options, pr.G.Lexer, sp, nil)+" 0:"+hexs([]byte(in)),
+					fmt.Sprintf("wf=1 map=1 eoif=%s %s", b2s(eoiFinalGo(pr.G.Lexer.Tables)), outs[i]), "")
+			}
 		}
 		// inputs
 		nIn := c.N(40, 60)
